@@ -45,7 +45,7 @@ def source_docs(tier, rng):
             out.append((f'{lbl} [{what}]', tt))
     # IDs as a pretty-printer or a vendor writes them: padded, on their own line, case variants - metadata is the text itself
     for what, rid, mid in (('padded roID', '  RO1 ', '12'), ('roID on its own line', '\n      RO-7\n    ', '13'), ('tab in roID', 'RO\t1', '14'),
-                           ('padded messageID', 'RO1', ' 15 '), ('messageID on its own line', 'RO1', '\n   16\n  '), ('zero-padded messageID', 'ro1', '0017')):
+                           ('padded messageID', 'RO1', ' 15 '), ('messageID on its own line', 'RO1', '\n   16\n  '), ('zero-padded messageID', 'ro1', '0017'), ('blank roID', B.BLANK, '18'), ('whitespace roID', '   ', '19')):
         out.append((f'{what}: roStoryAppend', TJ.to_text(B.story_append([B.story('P1', [])], message_id=mid, ro_id=rid))))
         out.append((f'{what}: roCreate', TJ.to_text(B.ro_doc([B.story('P1', [])], message_id=mid, ro_id=rid))))
         out.append((f'{what}: roDelete', TJ.to_text(B.ro_delete(message_id=mid, ro_id=rid))))
@@ -258,7 +258,7 @@ def run_c18(tier, seed):
                                'spec': 'file, str, bytes and S3 object with the same content give the same class and serialisation',
                                'impl': {k: (v if 'err' in v else v['cls']) for k, v in res.items()}})
         rd = reader_obs(text)
-        if 'err' not in vals[0] and '<messageID>' in text and '<roID>' in text:
+        if 'err' not in vals[0] and '<messageID>' in text and '<roID' in text:
             for name, o in rd.items():
                 if 'err' in o or not o['faithful_and_fresh'] or o['mos_type'] != vals[0]['cls']:
                     oc.failing.append({'kind': 'sources', 'text': text, 'label': lbl + ' reader/' + name,
@@ -363,7 +363,7 @@ def replay_c18(pid, fl):
         vals = list(untyped(res).values())
         bad = not sources_agree(res)
         rd = reader_obs(fl['text'])
-        if 'err' not in vals[0] and '<messageID>' in fl['text'] and '<roID>' in fl['text']:
+        if 'err' not in vals[0] and '<messageID>' in fl['text'] and '<roID' in fl['text']:
             bad = bad or any('err' in o or not o['faithful_and_fresh'] or o['mos_type'] != vals[0]['cls'] for o in rd.values())
     elif fl['kind'] == 'sources-bytes':
         res = from_all_sources(None, bytes.fromhex(fl['data_hex']))
